@@ -199,4 +199,15 @@ def expand_with_faults(model, root, snap, info, event, fault_budget):
                 if not wk.fired:
                     raise HarnessError("fault point %d of %d was never reached when replaying %r: the run is not deterministic" % (k, K, event))
                 record(k, obs_k, w.log, "error")
+        if "corrupt" in getattr(model, "fault_kinds", ("kill",)):
+            # one write is silently damaged (the step goes on, its result is altered): only at the points the model names, and only for events
+            # that are supposed to notice (the model decides through corruptible(event, label))
+            for k in range(K):
+                if not model.corruptible(event, w.log[k]):
+                    continue
+                restore(root, snap)
+                obs_k, wk = model.run(root, event, k, kind="corrupt")
+                if not wk.fired:
+                    raise HarnessError("fault point %d of %d was never reached when replaying %r: the run is not deterministic" % (k, K, event))
+                record(k, obs_k, w.log, "corrupt")
     return out
